@@ -436,6 +436,54 @@ def judge_cmsg(chk, recs, tag):
 # ------------------------------------------------------------------------------------------
 # try_* under strace
 # ------------------------------------------------------------------------------------------
+def start_racers(chk, bindir, tier):
+    wd = os.path.join(chk.work, "racers")
+    shutil.rmtree(wd, ignore_errors=True)
+    os.makedirs(wd)
+    return subprocess.Popen([os.path.join(bindir, "netops"), "racers", wd, "15" if tier == "quick" else "40", "500"],
+                            stdout=subprocess.PIPE, stderr=subprocess.PIPE, text=True)
+
+
+def finish_racers(chk, proc):
+    """Several waiters on one socket (3 acceptors on one listener, 2 timed readers on one TCP stream, one peer
+    action per round): whatever the losers get, a Timeout must not come before the limit (StreamRace.tla)."""
+    try:
+        out, err = proc.communicate(timeout=600)
+    except subprocess.TimeoutExpired:
+        proc.kill()
+        chk.violate({"part": "race", "op": "accept_to/read_to", "why": "timedout"},
+                    "a timed accept/read with several waiters on one socket never returned", {"mode": "racers"})
+        return
+    shutil.rmtree(os.path.join(chk.work, "racers"), ignore_errors=True)
+    recs = [v for v in (json.loads(l) for l in out.splitlines() if l.startswith("{")) if v.get("ev") == "race"]
+    if proc.returncode != 0 or not recs:
+        raise core.ToolError("netops racers failed rc=%s: %s" % (proc.returncode, err[-1500:]))
+    path = os.path.join(chk.work, "racers.ndjson")
+    core.write_ndjson(path, recs)
+    res = core.run_tlc("StreamRace.tla", "StreamRace.cfg", workers=1, env={"TRACE": path}, timeout=300,
+                       metadir=os.path.join(core.WORK, "tlc-meta", "StreamRace-%d" % os.getpid()))
+    core.tlc_must_pass(res, "StreamRace")
+    j = res.printed("JUDGED")[0]
+    chk.add_tlc(res)
+    chk.evaluations += len(recs)
+    chk.traces += len(recs) - len(j["bad"])
+    seen = set()
+    for i in j["bad"]:
+        r = recs[i - 1]
+        key = (r["fam"], r["op"], r["res"])
+        if key in seen:
+            continue
+        seen.add(key)
+        chk.violate({"part": "race", "fam": r["fam"], "op": r["op"], "why": "timeout_early" if r["res"] == "timeout" else r["res"]},
+                    "%s %s with several waiters on one socket (round %d, waiter %d): %s after %d us, limit %d us" % (
+                        r["fam"], r["op"], r["round"], r["waiter"], r["res"], r["elapsed"], r["d"] + 1), {"mode": "racers", "record": r})
+    hist = {}
+    for r in recs:
+        k = "%s/%s -> %s" % (r["fam"], r["op"], r["res"] if r["res"] != "err" else "err(%s)" % r["errno"])
+        hist[k] = hist.get(k, 0) + 1
+    chk.extra["several_waiters_on_one_socket"] = dict(sorted(hist.items()))
+
+
 def run_tryops(chk, bindir):
     wd = os.path.join(chk.work, "tryops")
     shutil.rmtree(wd, ignore_errors=True)
@@ -495,6 +543,7 @@ def run(tier):
     nontrivial = set()
 
     # ---- 1. the designs, exhaustively on small constants
+    racers = start_racers(chk, bindir, tier)
     pool = concurrent.futures.ThreadPoolExecutor(max_workers=2)
     fut_stream = pool.submit(core.run_tlc, "Stream.tla", "Stream_MCq.cfg" if tier == "quick" else "Stream_MC.cfg", workers=4,
                              timeout=3000, xmx="8g", metadir=os.path.join(core.WORK, "tlc-meta", "Stream-%d" % os.getpid()))
@@ -576,6 +625,7 @@ def run(tier):
     # ---- 5. try_* never block (structural)
     run_tryops(chk, bindir)
 
+    finish_racers(chk, racers)
     res = fut_stream.result()          # the exhaustive run of the design went on in the background
     core.tlc_must_pass(res, "Stream")
     chk.add_tlc(res)
